@@ -104,7 +104,8 @@ class BaseART(BaseEstimator, ClusterMixin):
         # validate first: a rejected call must leave the estimator unchanged
         self.validate_params(local_params)
         for key, sub_params in nested_params.items():
-            valid_params[key].set_params(**sub_params)
+            # a sub-estimator replaced in this very call receives its nested values
+            own_params.get(key, valid_params[key]).set_params(**sub_params)
         for key, value in own_params.items():
             setattr(self, key, value)
         return self
